@@ -387,4 +387,4 @@ def both_rule(ctx, prog, rid="C04.BOTH"):
                 if not any(b.dominates(bi, ob) for bi in mine):
                     ctx.report(r, "%s|%s" % (mirq.short_fn(bid), which), "%s can answer Ok without having resolved `offset.%s` with beginaligned_cursor (%s): that cursor is never checked against the text, so an offset whose %s lies outside it is accepted (and clamped or sliced wrongly) where textselection() and annotate() refuse it" % (bid, which, "no such call" if not mine else "the call does not dominate the answer", which), b.file, line)
                     break
-    ctx.floor(r, n, 8, "functions that resolve the cursors of an offset")
+    ctx.floor(r, n, 5, "functions that resolve the cursors of an offset (8 counted on the pinned tree; some may come to delegate to another)")
